@@ -27,6 +27,19 @@ CFGS = ['v6', 'v7', 'v6-nosec', 'v7-virt', 'v6-rst']
 val = st.one_of(st.sampled_from(gen.CORNERS), st.integers(0, M32), st.integers(0, M32).map(lambda x: (x * 0x9E3779B1 + 0x7F4A7C15) & M32))
 
 
+DUMPED = []          # configurations on which an earlier example of this process performed a register dump (process history, part of a replay)
+DUMP_MODES = (0b10000, 0b10001, 0b10010, 0b10011, 0b10110, 0b10111, 0b11010, 0b11011, 0b11111)
+
+
+def dump_banks(cpu):
+    for mode in DUMP_MODES:
+        for n in (13, 14):
+            try:
+                cpu.registers.get_rmode(n, mode)
+            except Exception:       # noqa: BLE001 - reads of a mode the configuration lacks may be refused
+                pass
+
+
 def make_machine(acc):
     class RegMachine(RuleBasedStateMachine):
         @initialize(ci=st.integers(0, len(CFGS) - 1), seed=st.integers(0, 2 ** 32 - 1), thumb=st.booleans())
@@ -67,6 +80,16 @@ def make_machine(acc):
             self.M.setRmode(n, mode, v)
             if mode != self.M.mode:
                 self.cross_reads += 1
+
+        @rule()
+        def dump_all_banks(self):
+            # what a debugger's register dump does: SP and LR of every architected mode number are read through the explicit-mode accessor, whether or
+            # not this configuration has the mode (what such a read returns is UNPREDICTABLE and ignored). It must leave this instance - and, the
+            # examples of a shard sharing one process, every instance of any other configuration created afterwards - banked as specified
+            self.hist.append(('dump',))
+            dump_banks(self.cpu)
+            if self.cfgname not in DUMPED:
+                DUMPED.append(self.cfgname)
 
         @rule(mi=st.integers(0, 8))
         def switch_direct(self, mi):
@@ -187,7 +210,7 @@ def shard_machine(seed, examples, steps):
         kind = 'out-of-range' if msg.startswith('out of range') else ('banking' if 'get' in msg.split(' after ')[0] else 'state')
         last = CURRENT.get('hist', [('?',)])[-1]
         acc.violation('C10:history:%s:%s' % (kind, last[0] if last[0] != 'take' else 'take-' + last[1]),
-                      {'history': [list(h) for h in CURRENT.get('hist', [])]}, msg[:1500])
+                      {'history': [list(h) for h in CURRENT.get('hist', [])], 'earlier_dumps_in_this_process': list(DUMPED)}, msg[:1500])
     return acc
 
 
@@ -212,6 +235,8 @@ def replay_history(hist):
                 m.cpsr_write(h[1], h[2], h[3])
             elif op == 'set_spsr':
                 m.set_spsr(h[1])
+            elif op == 'dump':
+                m.dump_all_banks()
             elif op == 'take':
                 m.take_exception(h[1], h[2])
             m.banks_agree()
@@ -338,6 +363,8 @@ def _dispatch(fn, args):
 def replay(case, bucket=None):
     if 'history' in case:
         hist = [tuple(h) for h in case['history']]
+        for cn in case.get('earlier_dumps_in_this_process', []):
+            dump_banks(target.new_cpu(gen.CONFIGS[cn], False, [(0, 0x40)]))
         msg = replay_history(hist)
         return [msg] if msg else []
     return e1prop.replay(PLAN, case) or e1prop.replay(PLAN_ALL, case)
